@@ -1403,6 +1403,10 @@ insert_list:
         SCOPED_LOCK(rq.current->lock);
         assert(!AtomicRunQ(rq).single());
         auto sw = AtomicRunQ(rq).remove_current(states::SLEEPING);
+        // discard any interrupt recorded while this thread was runnable (thread_interrupt()
+        // on a READY thread, or one already reported by thread_yield()): it must not be
+        // delivered by this unrelated sleep after the full timeout has elapsed
+        sw.from->error_number = 0;
         if (waitq) {
             waitq->push_back(sw.from);
             sw.from->waitq = waitq;
